@@ -32,6 +32,7 @@ summary is about meaning, not spelling:
     is the handler called with the event, does the function raise.
 """
 import ast
+import re
 
 from extract_facts import Unsupported, parse, zs
 
@@ -53,6 +54,15 @@ def u(n):
 
 def private(name):
     return name.startswith('_') and not (name.startswith('__') and name.endswith('__'))
+
+
+def template(s):
+    """the constant text of a string template, whatever the formatting mechanism"""
+    return re.sub(r'%[-#0 +]*\d*(?:\.\d+)?[sdrifxXeEgGc]', '', re.sub(r'\{[^{}]*\}', '', s))
+
+
+def fmt(atoms):
+    return {('str:' + template(a[4:])) if a.startswith('str:') else a for a in atoms}
 
 
 def anon(path):
@@ -167,7 +177,14 @@ class Summary:
                 return {base + '[]'}
             return {a + '[]' for a in self.atoms(e.value, env, depth)}
         if isinstance(e, ast.BinOp):
-            return self.atoms(e.left, env, depth) | self.atoms(e.right, env, depth)
+            left = self.atoms(e.left, env, depth)
+            if isinstance(e.op, ast.Mod) and any(a.startswith('str:') for a in left):
+                left = fmt(left)                     # 'text %s' % value
+            return left | self.atoms(e.right, env, depth)
+        if isinstance(e, ast.NamedExpr):
+            v = self.atoms(e.value, env, depth)
+            self.bind(e.target, v, env)
+            return v
         if isinstance(e, ast.BoolOp):
             out = set()
             for v in e.values:
@@ -181,9 +198,11 @@ class Summary:
                 out |= self.atoms(c, env, depth)
             return out
         if isinstance(e, ast.JoinedStr):
-            out = set()
+            out = {'str:' + ''.join(v.value for v in e.values
+                                    if isinstance(v, ast.Constant) and isinstance(v.value, str))}
             for v in e.values:
-                out |= self.atoms(v.value if isinstance(v, ast.FormattedValue) else v, env, depth)
+                if isinstance(v, ast.FormattedValue):
+                    out |= self.atoms(v.value, env, depth)
             return out
         if isinstance(e, ast.Lambda):
             return {'lambda'}
@@ -254,7 +273,7 @@ class Summary:
         if root in LOG_ROOTS:
             return set()
         if f.attr == 'format':
-            out = self.atoms(f.value, env, depth)
+            out = fmt(self.atoms(f.value, env, depth))
             for a in args:
                 out |= a
             return out
@@ -299,25 +318,39 @@ class Summary:
 
     # ---- conditions --------------------------------------------------------------------------------
     def test(self, t, env, depth):
-        """record conditions on the event's fields / parameters; None and hasattr guards are not recorded
-        (whether a lookup tolerates absence is recorded by get-versus-index)"""
+        """record what conditions look at (event fields, parameters, self.<paths>), atom by atom: how tests
+        are grouped, negated or named is spelling; None and hasattr guards are not recorded (whether a lookup
+        tolerates absence is recorded by get-versus-index)"""
+        for x in self.cond_atoms(t, env, depth):
+            self.tokens.add('test ' + x)
+
+    def cond_atoms(self, t, env, depth):
+        """what a condition looks at, None / hasattr guards left out"""
         if isinstance(t, ast.BoolOp):
+            out = set()
             for v in t.values:
-                self.test(v, env, depth)
-            return
+                out |= self.cond_atoms(v, env, depth)
+            return out
         if isinstance(t, ast.UnaryOp) and isinstance(t.op, ast.Not):
-            self.test(t.operand, env, depth)
-            return
+            return self.cond_atoms(t.operand, env, depth)
+        if isinstance(t, ast.NamedExpr):
+            v = self.atoms(t.value, env, depth)
+            self.bind(t.target, v, env)
+            return set()
         if isinstance(t, ast.Compare) and len(t.ops) == 1 and isinstance(t.ops[0], (ast.Is, ast.IsNot)) \
                 and isinstance(t.comparators[0], ast.Constant) and t.comparators[0].value is None:
             self.atoms(t.left, env, depth)
-            return
+            return set()
         if isinstance(t, ast.Call) and isinstance(t.func, ast.Name) and t.func.id == 'hasattr':
-            return
+            return set()
         a = self.atoms(t, env, depth)
         if any(x.startswith(('event', 'arg', 'self.', 'stream', 'task')) or x in ('size', 'reason', 'data')
                for x in a):
-            self.tokens.add('test ' + self.show(a))
+            return {x for x in a if x not in ('stream', 'task')}
+        return set()
+
+    def _unused(self):
+        pass
 
     # ---- statements --------------------------------------------------------------------------------
     def bind(self, target, value, env):
@@ -357,7 +390,11 @@ class Summary:
                 if s.value is not None:
                     self.bind(s.target, self.atoms(s.value, env, depth), env)
             elif isinstance(s, ast.Return):
-                self.returns |= self.atoms(s.value, env, depth)
+                if isinstance(s.value, (ast.BoolOp, ast.Compare)) or \
+                        (isinstance(s.value, ast.UnaryOp) and isinstance(s.value.op, ast.Not)):
+                    self.returns |= self.cond_atoms(s.value, env, depth)
+                else:
+                    self.returns |= self.atoms(s.value, env, depth)
             elif isinstance(s, ast.Raise):
                 need(s.exc is not None, 'bare raise')
                 exc = s.exc.func if isinstance(s.exc, ast.Call) else s.exc
@@ -395,11 +432,20 @@ class Summary:
                 self.stmts(s.orelse, env, depth, guards)
                 self.stmts(s.finalbody, env, depth, guards)
             elif isinstance(s, (ast.With, ast.AsyncWith)):
+                caught = []
                 for it in s.items:
-                    v = self.atoms(it.context_expr, env, depth)
+                    ce = it.context_expr
+                    if isinstance(ce, ast.Call) and u(ce.func) in ('suppress', 'contextlib.suppress'):
+                        caught += [u(a) for a in ce.args]       # == try: ... except E: pass
+                        continue
+                    v = self.atoms(ce, env, depth)
                     if it.optional_vars is not None:
                         self.bind(it.optional_vars, v, env)
-                self.stmts(s.body, env, depth, guards)
+                g = guards + tuple('catch ' + n for n in caught)
+                self.stmts(s.body, env, depth, g)
+                if caught and not (set(caught) <= {'AttributeError'} and all(
+                        isinstance(x, ast.Delete) for x in strip_doc(s.body))):
+                    self.tokens.add('catch ' + ', '.join(sorted(set(caught))))
             elif isinstance(s, (ast.FunctionDef, ast.AsyncFunctionDef)):
                 self.tokens.add('def ' + s.name)
             else:
@@ -530,12 +576,35 @@ def processors_methods(pr):
     init = method(pr, 'EventsProcessor', '__init__')
     for s in ast.walk(init):
         if isinstance(s, ast.Assign) and u(s.targets[0]) == 'self.processors':
-            need(isinstance(s.value, ast.Dict), 'processors is not a dict literal')
             names = []
-            for v in s.value.values:
-                need(isinstance(v, ast.Attribute) and u(v.value) == 'self', 'processor ' + u(v))
-                if v.attr not in names:
-                    names.append(v.attr)
+            if isinstance(s.value, ast.Dict):
+                for v in s.value.values:
+                    need(isinstance(v, ast.Attribute) and u(v.value) == 'self', 'processor ' + u(v))
+                    if v.attr not in names:
+                        names.append(v.attr)
+                return names
+            # {cls: getattr(self, name) for cls, name in <table>}: the method names are the string
+            # constants of the table (a class-level or module-level tuple / list / dict)
+            need(isinstance(s.value, ast.DictComp) and len(s.value.generators) == 1
+                 and 'getattr(self' in u(s.value.value), 'processors is neither a dict literal nor a '
+                 'comprehension with getattr(self, name)')
+            src = s.value.generators[0].iter
+            if isinstance(src, ast.Call):                    # TABLE.items()
+                src = src.func.value if isinstance(src.func, ast.Attribute) else src
+            tname = src.attr if isinstance(src, ast.Attribute) else (src.id if isinstance(src, ast.Name) else None)
+            need(tname is not None, 'processors table ' + u(src))
+            table = None
+            for n in ast.walk(pr):
+                if isinstance(n, (ast.Assign, ast.AnnAssign)):
+                    tg = n.targets[0] if isinstance(n, ast.Assign) else n.target
+                    if isinstance(tg, ast.Name) and tg.id == tname and n.value is not None:
+                        table = n.value
+            need(table is not None, 'processors table %s not found' % tname)
+            for c in ast.walk(table):
+                if isinstance(c, ast.Constant) and isinstance(c.value, str) and c.value.startswith('process'):
+                    if c.value not in names:
+                        names.append(c.value)
+            need(names, 'no method names in ' + tname)
             return names
     raise Unsupported('C12 facts: processors not found')
 
